@@ -397,6 +397,7 @@ func shrink(plan Plan, sig string, exec func(Plan) *RunResult, budget int) (Plan
 // does on its own when it reports something - so it is given a goroutine of
 // its own and the caller carries on with the remaining runs.
 func bubble(t *testing.T, f func(t *testing.T)) {
+	startRealTick()
 	done := make(chan struct{})
 	var pv interface{}
 	go func() {
